@@ -76,17 +76,30 @@ def paths(c, mode, rnd, maxlen=3):
     return res
 
 
-def classes(rnd, count):
+def classes(rnd, count, products=False):
+    """products=True biases towards classes to which Peel applies, with statistics that get merged on a child"""
     out = []
     while len(out) < count:
         alpha = rnd.choice(["ab", "ab", "abc", "a"])
         pats = upword.rand_patterns(rnd, alpha, 3, 3)
         params = [p for p in rnd.choice(PARAM_SETS + [[("k_0", "c", 0), ("k_1", "a", 0)]]) if p[1] in alpha]
         mode = rnd.choice(MODES)
-        if rnd.random() < 0.15 and len(alpha) >= 2:
+        if rnd.random() < (0.4 if products else 0.15) and len(alpha) >= 2:
+            if products:
+                params = [p for p in rnd.choice([PARAM_SETS[4], PARAM_SETS[4], PARAM_SETS[2], [("k_0", "a", 0), ("k_1", "a", 0)]]) if p[1] in alpha]
+                mode = rnd.choice(["merge", "merge rename", ""])
             rest = alpha[:-1]
             pats2 = upword.rand_patterns(rnd, rest, 3, 2)
             c = SW(pats2, rest, alpha[-1], [p for p in params if p[2] == 0])
+        elif products and rnd.random() < 0.7:
+            params = [p for p in rnd.choice([PARAM_SETS[3], PARAM_SETS[4], PARAM_SETS[4], PARAM_SETS[2]]) if p[1] in alpha]
+            mode = rnd.choice(["merge", "merge rename", "drop merge rename"])
+            prefix = "".join(rnd.choice(alpha) for _ in range(rnd.choice([1, 2, 2, 3])))
+            c = PW(prefix, pats, alpha, False, params)
+            if not c.is_empty() and upword.safe_front(c) > 0:
+                out.append((c, mode))
+            continue
+
         else:
             plen = rnd.choice([0, 0, 1, 1, 2, 3, 4])
             prefix = "".join(rnd.choice(alpha) for _ in range(plen))
